@@ -1000,3 +1000,13 @@ impl VLog {
 		Ok(())
 	}
 }
+
+// Verification hooks (guarded; stripped unless built with cfg(kani) or --cfg surrealkv_verif).
+#[cfg(kani)]
+mod verif_kani {
+	include!(concat!(env!("SURREALKV_VERIF_DIR"), "/kani/vlog.rs"));
+}
+#[cfg(all(test, surrealkv_verif))]
+mod verif_replay {
+	include!(concat!(env!("SURREALKV_VERIF_DIR"), "/replay/vlog.rs"));
+}
